@@ -38,6 +38,7 @@ Definition carried_first (reqs : list request) : list request :=
 Section Engine.
   Variable break_when_empty : bool.   (* MRGN: `if not allocable: break` at the top of every iteration *)
   Variable carry_checks_used : bool.  (* editors: a carried index is placed only when still unused *)
+  Variable carry_range : option (N * N).  (* MRGN: a carried index outside [lo, hi] raises ValueError *)
 
   Fixpoint engine (reqs : list request) (used free : list N) : result (list outcome) :=
     match reqs with
@@ -48,6 +49,9 @@ Section Engine.
         else
           match r with
           | RCarry k =>
+              if match carry_range with Some (lo, hi) => (k <? lo) || (hi <? k) | None => false end
+              then Raise ValueError
+              else
               if carry_checks_used && memN k used
               then do o <- engine rest used free; Ok (Dropped :: o)
               else do o <- engine rest (k :: used) (removeN k free); Ok (Placed k :: o)
@@ -65,20 +69,20 @@ End Engine.
 
 (* RichMrgnEditor.add_locations: ids 1..MAX_LOCATIONS except Anywhere; break when full; carried first *)
 Definition add_locations (existing : list N) (reqs : list request) : result (list outcome) :=
-  engine true true (carried_first reqs) existing
+  engine true true (Some (1, MAX_LOCATIONS)) (carried_first reqs) existing
          (free_ids 1 MAX_LOCATIONS [ANYWHERE_LOCATION_ID] existing).
 
 (* RichUprpEditor.add_cuwp_slots: ids 1..MAX_CUWP_SLOTS; raise when full; carried first *)
 Definition add_cuwp_slots (existing : list N) (reqs : list request) : result (list outcome) :=
-  engine false true (carried_first reqs) existing (free_ids 1 MAX_CUWP_SLOTS [] existing).
+  engine false true None (carried_first reqs) existing (free_ids 1 MAX_CUWP_SLOTS [] existing).
 
 (* RichWavEditor.add_wav_files: ids 0..MAX_WAV_FILES-1; request order is the caller's list *)
 Definition add_wav_files (existing : list N) (reqs : list request) : result (list outcome) :=
-  engine false true reqs existing (free_ids 0 MAX_WAV_FILES [] existing).
+  engine false true None reqs existing (free_ids 0 MAX_WAV_FILES [] existing).
 
 (* RichSwnmEditor.add_switches: ids 0..MAX_SWITCHES-1; set iteration order as given *)
 Definition add_switches (existing : list N) (reqs : list request) : result (list outcome) :=
-  engine false true reqs existing (free_ids 0 MAX_SWITCHES [] existing).
+  engine false true None reqs existing (free_ids 0 MAX_SWITCHES [] existing).
 
 (* RichSwnmRebuilder: ids not carried by any used switch; a carried index always takes its slot;
    an index >= MAX_SWITCHES is an IndexError on the 256-element list *)
@@ -90,7 +94,7 @@ Definition rebuild_swnm (reqs : list request) : result (list outcome) :=
     (* IndexError at the first out-of-range carried index, or ValueError earlier if ids run out first;
        only the class "raises" is compared *)
     Raise IndexError
-  else engine false false reqs [] (free_ids 0 MAX_SWITCHES [] (carried_ids reqs)).
+  else engine false false None reqs [] (free_ids 0 MAX_SWITCHES [] (carried_ids reqs)).
 
 (* ids handed to fresh requests, in request order *)
 Fixpoint fresh_ids (reqs : list request) (outs : list outcome) : list N :=
